@@ -28,6 +28,9 @@
 #include "ref_matrix.h"
 #include "ref_mpi.h"
 #include "ref_sort.h"
+#ifdef NASA_REFINE_VERIF
+#include "ref_verif.h"
+#endif
 
 /* REF_EMPTY is terminator, next available is shifted by 2*/
 #define next2index(next) (-(next)-2)
@@ -713,8 +716,14 @@ REF_FCN REF_STATUS ref_node_eliminate_unused_globals(REF_NODE ref_node) {
 }
 
 REF_FCN REF_STATUS ref_node_synchronize_globals(REF_NODE ref_node) {
+#ifdef NASA_REFINE_VERIF
+  ref_verif_sync("node_synchronize_globals_begin", ref_node);
+#endif
   RSS(ref_node_shift_new_globals(ref_node), "shift");
   RSS(ref_node_eliminate_unused_globals(ref_node), "shift");
+#ifdef NASA_REFINE_VERIF
+  ref_verif_sync("node_synchronize_globals_end", ref_node);
+#endif
 
   return REF_SUCCESS;
 }
